@@ -528,7 +528,9 @@ class MultiVector:
         elif isinstance(data, dict):
             pass
         else:
-            data = {0: data}
+            # a zero scalar is the zero multivector: no coefficients stored
+            from pymbolic.primitives import is_zero
+            data = {} if is_zero(data) else {0: data}
 
         if space is None:
             space = get_euclidean_space(dimensions)
